@@ -113,7 +113,7 @@ def run_reload(wk, nhup, new_workers, seed, bind="tcp", drop_env_last=False, rel
             hups.append(time.time())
             s.signal(signal.SIGHUP)
             time.sleep(gap)
-        time.sleep(1.2 + (0.9 - gap) + (1.2 if burst else 0))
+        time.sleep(1.2 + (0.9 - gap) + (2.4 if burst else 0))
         stop.set()
         [t.join(12) for t in ths]
         # settle: old workers have at most graceful_timeout to finish
@@ -124,6 +124,8 @@ def run_reload(wk, nhup, new_workers, seed, bind="tcp", drop_env_last=False, rel
         alive = [p for p in s.workers() if rp.proc_state(p) not in (None, "Z")]
         old_alive = [p for p in alive if p in initial]
         final_marker = "-" if drop_env_last else "gen%d" % nhup
+        # (a burst: workers forked just before the last HUP are asked to stop again at the master's next tick, after they booted)
+        late = 3.0 if burst else 1.6
         settle_t = hups[-1] + 1.0
         tail = []
         for _ in range(6):
@@ -139,12 +141,12 @@ def run_reload(wk, nhup, new_workers, seed, bind="tcp", drop_env_last=False, rel
             ev.append({"e": "req", "outcome": r["outcome"], "inflight_at_hup": bool(inflight)})
         ev.append({"e": "after", "old_alive": len(old_alive), "nworkers": len(alive), "want_workers": want,
                    "old_marker_seen": any(m != final_marker for m in tail) or
-                                      any(r["marker"] != final_marker for r in karecs if r["t0"] > hups[-1] + 1.6)})
+                                      any(r["marker"] != final_marker for r in karecs if r["t0"] > hups[-1] + late)})
         tr = {"wk": wk, "strict": wk == "sync", "ev": ev}
         bad = [r for r in recs if r["outcome"] != "complete"]
         return tr, {"wk": wk, "nhup": nhup, "bind": bind, "burst": burst, "requests": len(recs), "not_complete": [(r["path"], r["outcome"]) for r in bad][:5],
                     "alive": len(alive), "want": want, "tail_markers": tail,
-                    "kept_alive": len(karecs), "kept_alive_late_old": [r["pid"] for r in karecs if r["t0"] > hups[-1] + 1.6 and r["marker"] != final_marker][:4]}
+                    "kept_alive": len(karecs), "kept_alive_late_old": [r["pid"] for r in karecs if r["t0"] > hups[-1] + late and r["marker"] != final_marker][:4]}
     finally:
         stop.set()
         s.cleanup()
